@@ -30,7 +30,7 @@ def run(c):
     else:
         trace = c.scratch + "/csum.ndjson"
         c.run_driver(drv, ["-mode", "csum", "-out", trace, "-n", 600 if c.thorough else 110])
-    r = c.validate("WireCsumTrace", "WireCsumTrace.cfg", trace, timeout=3000)
+    r = _wire.validate_table(c, "WireCsumTrace", "WireCsumTrace.cfg", trace, min_chunk=20)
     _wire.judge_table(c, r, trace, maxlen=200)
     n = flips = 0
     shapes = set()
